@@ -509,6 +509,7 @@ func drive(tr transform.Transformer, src []byte, dstSize int) ([]byte, error) {
 			return dst[:nDst], nil
 		case transform.ErrShortDst:
 			dstSize *= 2
+			tr.Reset() // start over from the initial state (a transformer may legitimately keep state between calls)
 		default:
 			return nil, err
 		}
